@@ -132,7 +132,7 @@ func init() {
 	})
 	register(&spec{
 		ID: "C36", Title: "The import cache key changes exactly when package sources change", Level: "exploration",
-		Instrument: map[string]simgen.Options{xgo + "/tool": {Sync: true, Conc: true, Maps: true, Files: []string{"imp.go"}, Swap: map[string]string{"time": simgen.SimrtPath + "/stime", "os": simgen.SimosPath}}},
+		Instrument: map[string]simgen.Options{xgo + "/tool": {Sync: true, Conc: true, Maps: true, Files: []string{"imp.go"}, Swap: map[string]string{"time": simgen.SimrtPath + "/stime", "os": simgen.SimosPath, "runtime": simgen.SimrtPath + "/sruntime"}}},
 		Harness: []harnessCopy{{"c36", "tool"}},
 		TestPkg: "tool", TestName: "TestZSimC36",
 		QuickRuns: 4000, ThoroughRuns: 400000, QuickBudget: 4 * time.Minute, ThoroughBudget: 40 * time.Minute,
@@ -183,7 +183,7 @@ func init() {
 	})
 	register(&spec{
 		ID: "C26", Title: "xgo fmt never loses a file at any crash point and keeps its mode", Level: "fault_enumeration",
-		Instrument: map[string]simgen.Options{xgo + "/cmd/internal/gopfmt": {Sync: true, Conc: true, Maps: true, Swap: map[string]string{"os": simgen.SimosPath, "time": simgen.SimrtPath + "/stime"}}},
+		Instrument: map[string]simgen.Options{xgo + "/cmd/internal/gopfmt": {Sync: true, Conc: true, Maps: true, Swap: map[string]string{"os": simgen.SimosPath, "time": simgen.SimrtPath + "/stime", "runtime": simgen.SimrtPath + "/sruntime"}}},
 		Harness:    []harnessCopy{{"c26", "cmd/internal/gopfmt"}},
 		TestPkg:    "cmd/internal/gopfmt", TestName: "TestZSimC26",
 		QuickRuns: 3000, ThoroughRuns: 300000, QuickBudget: 4 * time.Minute, ThoroughBudget: 40 * time.Minute,
